@@ -1,4 +1,317 @@
-import VerdeModel.Model.Coords
+/-
+  C07 — Regular coordinates honour region, spacing, shape and registration.
+  Property theorems only (helpers live in Lemmas/).  All statements are about the
+  executable model in Model/Coords.lean, for every rational input (no bound on sizes).
+-/
+import VerdeModel.Lemmas.Coords
 namespace Verde.C07
-theorem placeholder : (1 : Nat) = 1 := rfl
+open Verde
+
+/-- `round` is nearest-integer with ties to even. -/
+theorem round_nearest (q : Rat) : |(roundHalfEven q : Rat) - q| ≤ 1/2 := roundHalfEven_near q
+theorem round_ties_to_even (q : Rat) (h : q - (q.floor : Rat) = 1/2) : roundHalfEven q % 2 = 0 :=
+  roundHalfEven_tie_even q h
+
+/-- The number of intervals is the integer nearest to extent/spacing, but at least one. -/
+theorem interval_count (start stop sp : Rat) :
+    (intervals start stop sp : Int) = max 1 (roundHalfEven ((stop - start) / sp)) := by
+  unfold intervals; omega
+
+/-- **Normal form, spacing given.**  For every `start ≤ stop`, `spacing > 0`, either adjust mode and either
+    registration, `line_coordinates` returns the evenly spaced nodes from `start` with `intervals` intervals;
+    the step is the requested spacing for `adjust='region'` and `extent/intervals` for `adjust='spacing'`. -/
+theorem line_spacing_normal_form (start stop sp : Rat) (hsp : 0 < sp) (hle : start ≤ stop)
+    (adj : Adjust) (hadj : adj ≠ .bad) (pixel : Bool) :
+    lineCoordinates start stop none (some sp) adj pixel =
+      .ok (nodes start (if adj = .region then sp else (stop - start) / (intervals start stop sp : Rat))
+            (intervals start stop sp) pixel) := by
+  have hm := intervals_pos start stop sp
+  have hm0 : ((intervals start stop sp : Nat) : Rat) ≠ 0 := by
+    have : (0 : Rat) < (intervals start stop sp : Rat) := by exact_mod_cast hm
+    exact ne_of_gt this
+  have key : ∀ b : Bool, lineCoordinates start stop none (some sp) (if b then .region else .spacing) pixel =
+      .ok (nodes start (if b then sp else (stop - start) / (intervals start stop sp : Rat))
+            (intervals start stop sp) pixel) := by
+    intro b
+    have h1 := spacingToSize_fst start stop sp b hsp hle
+    have h2 := spacingToSize_snd start stop sp b hsp hle
+    rcases hs : spacingToSize start stop sp b with ⟨sz, stop'⟩
+    rw [hs] at h1 h2
+    simp only [] at h1 h2
+    have hlc : lineCoordinates start stop none (some sp) (if b then .region else .spacing) pixel =
+        (if sz < 0 then .error .valueError else
+          if pixel then pixelShift (linspace start stop' sz.toNat) else .ok (linspace start stop' sz.toNat)) := by
+      have e1 : (Adjust.spacing == Adjust.region) = false := rfl
+      have e2 : (Adjust.region == Adjust.region) = true := rfl
+      unfold lineCoordinates
+      cases b <;> simp [hs, e1, e2]
+    rw [hlc]
+    have hsz : ¬ sz < 0 := by omega
+    have htn : sz.toNat = intervals start stop sp + 1 := by omega
+    rw [if_neg hsz, htn]
+    have hstep : (stop' - start) / (intervals start stop sp : Rat) =
+        (if b then sp else (stop - start) / (intervals start stop sp : Rat)) := by
+      rw [h2]; cases b
+      · simp
+      · simp only [if_true]; field_simp; ring
+    cases pixel
+    · simp only [Bool.false_eq_true, if_false]
+      rw [linspace_eq_nodes _ _ _ hm, hstep]
+    · simp only [if_true]
+      rw [pixelShift_linspace _ _ _ hm, hstep]
+  cases adj
+  · simpa using key false
+  · simpa using key true
+  · exact absurd rfl hadj
+
+/-- Node `i` of an evenly spaced line. -/
+theorem nodes_gridline_get (start step : Rat) (m i : Nat) (hi : i ≤ m) :
+    (nodes start step m false)[i]? = some (start + (i : Rat) * step) := by
+  have : i < m + 1 := by omega
+  simp [nodes, List.getElem?_map, List.getElem?_range this]
+
+theorem nodes_pixel_get (start step : Rat) (m i : Nat) (hi : i < m) :
+    (nodes start step m true)[i]? = some (start + ((i : Rat) + 1/2) * step) := by
+  simp [nodes, List.getElem?_map, List.getElem?_range hi]
+
+/-- `adjust='spacing'`: the first node is `start`, the last node is **exactly** `stop`,
+    and there are `intervals + 1` nodes. -/
+theorem adjust_spacing_hits_both_bounds (start stop sp : Rat) (hsp : 0 < sp) (hle : start ≤ stop) :
+    ∃ xs, lineCoordinates start stop none (some sp) .spacing false = .ok xs ∧
+      xs.length = intervals start stop sp + 1 ∧ xs[0]? = some start ∧
+      xs[intervals start stop sp]? = some stop := by
+  refine ⟨_, line_spacing_normal_form start stop sp hsp hle .spacing (by decide) false, ?_, ?_, ?_⟩
+  · simp [nodes_length]
+  · rw [nodes_gridline_get _ _ _ 0 (Nat.zero_le _)]; simp
+  · rw [nodes_gridline_get _ _ _ _ (le_refl _)]
+    have hm := intervals_pos start stop sp
+    have : ((intervals start stop sp : Nat) : Rat) ≠ 0 := by
+      have : (0 : Rat) < (intervals start stop sp : Rat) := by exact_mod_cast hm
+      exact ne_of_gt this
+    simp only [show (Adjust.spacing = Adjust.region) = False from by simp, if_false]
+    congr 1; field_simp; ring
+
+/-- `adjust='region'`: every step equals the requested spacing, the first node is `start`, and only the
+    far bound moves, to `start + intervals·spacing`. -/
+theorem adjust_region_keeps_spacing (start stop sp : Rat) (hsp : 0 < sp) (hle : start ≤ stop) (i : Nat)
+    (hi : i ≤ intervals start stop sp) :
+    ∃ xs, lineCoordinates start stop none (some sp) .region false = .ok xs ∧
+      xs.length = intervals start stop sp + 1 ∧ xs[i]? = some (start + (i : Rat) * sp) := by
+  refine ⟨_, line_spacing_normal_form start stop sp hsp hle .region (by decide) false, ?_, ?_⟩
+  · simp [nodes_length]
+  · rw [nodes_gridline_get _ _ _ i hi]; simp
+
+/-- `adjust='region'`: the moved bound is within half a spacing of the requested one
+    (whenever the extent is at least half a spacing). -/
+theorem adjust_region_bound_moves_at_most_half_spacing (start stop sp : Rat) (hsp : 0 < sp)
+    (hext : sp / 2 ≤ stop - start) :
+    |(start + (intervals start stop sp : Rat) * sp) - stop| ≤ sp / 2 := by
+  have hq : 1/2 ≤ (stop - start) / sp := by
+    rw [le_div_iff₀ hsp]; linarith
+  have hnear := roundHalfEven_near ((stop - start) / sp)
+  have hnn := roundHalfEven_nonneg (q := (stop - start) / sp) (by linarith)
+  have hext' : stop - start = ((stop - start) / sp) * sp := by field_simp
+  set q := (stop - start) / sp with hqdef
+  set r := roundHalfEven q with hr
+  have hm : ((intervals start stop sp : Nat) : Rat) = ((max 1 r : Int) : Rat) := by
+    have := interval_count start stop sp
+    rw [← hqdef, ← hr] at this
+    exact_mod_cast this
+  rw [hm]
+  have e : start + ((max 1 r : Int) : Rat) * sp - stop = (((max 1 r : Int) : Rat) - q) * sp := by
+    have : stop = start + q * sp := by linarith
+    rw [this]; ring
+  rw [e, abs_mul, abs_of_pos hsp]
+  have hb : |((max 1 r : Int) : Rat) - q| ≤ 1/2 := by
+    rcases le_or_gt 1 r with h1 | h0
+    · rw [max_eq_right h1]; exact hnear
+    · have hr0 : r = 0 := by omega
+      rw [max_eq_left (by omega)]
+      rw [hr0] at hnear
+      rw [abs_le] at hnear ⊢
+      push_cast at hnear ⊢
+      constructor <;> linarith
+  calc |((max 1 r : Int) : Rat) - q| * sp ≤ (1/2) * sp := by
+        exact mul_le_mul_of_nonneg_right hb hsp.le
+    _ = sp / 2 := by ring
+
+/-- Pixel registration returns the midpoints of consecutive grid-line nodes — one fewer node. -/
+theorem pixel_nodes_are_midpoints (start step : Rat) (m i : Nat) (hi : i < m) :
+    ∃ a b, (nodes start step m false)[i]? = some a ∧ (nodes start step m false)[i + 1]? = some b ∧
+      (nodes start step m true)[i]? = some ((a + b) / 2) ∧
+      (nodes start step m true).length + 1 = (nodes start step m false).length := by
+  refine ⟨_, _, nodes_gridline_get start step m i (by omega), nodes_gridline_get start step m (i + 1) (by omega), ?_, ?_⟩
+  · rw [nodes_pixel_get start step m i hi]; congr 1; push_cast; ring
+  · simp [nodes_length]
+
+/-- **Normal form, size given** (grid-line registration, `size ≥ 2`): `size` nodes hitting both bounds. -/
+theorem line_size_normal_form (start stop : Rat) (n : Nat) (hn : 2 ≤ n) (adj : Adjust) :
+    lineCoordinates start stop (some n) none adj false =
+      .ok (nodes start ((stop - start) / ((n - 1 : Nat) : Rat)) (n - 1) false) := by
+  obtain ⟨m, rfl⟩ : ∃ m, n = m + 1 := ⟨n - 1, by omega⟩
+  have hm : 1 ≤ m := by omega
+  simp only [lineCoordinates, Bool.false_eq_true, if_false, Nat.add_sub_cancel]
+  rw [linspace_eq_nodes _ _ _ hm]
+
+/-- A single requested node is the start of the interval. -/
+theorem line_size_one (start stop : Rat) (adj : Adjust) :
+    lineCoordinates start stop (some 1) none adj false = .ok [start] := by
+  simp [lineCoordinates, linspace_one]
+
+/-- **Normal form, size given, pixel registration**: exactly `size` midpoints of `size` equal pixels. -/
+theorem line_size_pixel_normal_form (start stop : Rat) (n : Nat) (hn : 1 ≤ n) (adj : Adjust) :
+    lineCoordinates start stop (some n) none adj true =
+      .ok (nodes start ((stop - start) / (n : Rat)) n true) := by
+  simp only [lineCoordinates, if_true]
+  rw [pixelShift_linspace _ _ _ hn]
+
+theorem pixel_size_count (start stop : Rat) (n : Nat) :
+    (nodes start ((stop - start) / (n : Rat)) n true).length = n := by simp [nodes_length]
+
+/-- Every pixel centre lies strictly inside `(start, stop)` when the extent is positive. -/
+theorem pixel_nodes_strictly_inside (start stop : Rat) (n i : Nat) (hi : i < n) (hlt : start < stop) :
+    start < start + ((i : Rat) + 1/2) * ((stop - start) / (n : Rat)) ∧
+    start + ((i : Rat) + 1/2) * ((stop - start) / (n : Rat)) < stop := by
+  have hnpos : (0 : Rat) < (n : Rat) := by exact_mod_cast (by omega : 0 < n)
+  have hstep : 0 < (stop - start) / (n : Rat) := div_pos (by linarith) hnpos
+  have hi' : (i : Rat) + 1 ≤ (n : Rat) := by exact_mod_cast hi
+  have hi0 : (0 : Rat) ≤ (i : Rat) := by exact_mod_cast Nat.zero_le i
+  constructor
+  · have : 0 < ((i : Rat) + 1/2) * ((stop - start) / (n : Rat)) := mul_pos (by linarith) hstep
+    linarith
+  · have h1 : ((i : Rat) + 1/2) * ((stop - start) / (n : Rat)) < (n : Rat) * ((stop - start) / (n : Rat)) :=
+      mul_lt_mul_of_pos_right (by linarith) hstep
+    have h2 : (n : Rat) * ((stop - start) / (n : Rat)) = stop - start := by field_simp
+    linarith
+
+/-- Both / neither of size and spacing are rejected; an unknown adjust mode is rejected. -/
+theorem both_size_and_spacing_rejected (start stop sp : Rat) (n : Nat) (adj : Adjust) (px : Bool) :
+    lineCoordinates start stop (some n) (some sp) adj px = .error .valueError := rfl
+theorem neither_size_nor_spacing_rejected (start stop : Rat) (adj : Adjust) (px : Bool) :
+    lineCoordinates start stop none none adj px = .error .valueError := rfl
+theorem bad_adjust_rejected (start stop sp : Rat) (px : Bool) :
+    lineCoordinates start stop none (some sp) .bad px = .error .valueError := rfl
+
+/-- Grid orientation: shape `(n_north, n_east)`; easting varies along columns, northing along rows. -/
+theorem meshgrid_orientation (east north : List Rat) (i j : Nat) (hi : i < north.length) (hj : j < east.length) :
+    (meshgrid east north).1.length = north.length ∧ (meshgrid east north).2.length = north.length ∧
+    ((meshgrid east north).1[i]?.bind (·[j]?)) = east[j]? ∧
+    ((meshgrid east north).2[i]?.bind (·[j]?)) = north[i]? := by
+  simp [meshgrid, List.getElem?_map, List.getElem?_eq_getElem hi, List.getElem?_eq_getElem hj,
+    List.getElem?_replicate, hi, hj]
+
+/-- `grid_coordinates` builds easting from `(W, E)` with `shape[1]`/`spacing[1]` and northing from `(S, N)` with
+    `shape[0]`/`spacing[0]`; the 2-D arrays are the meshgrid of those lines and extra coordinates are constant. -/
+theorem grid_from_lines (region : List Rat) (g : GridSpec) (extra : List Rat) (east north : List Rat)
+    (h : gridLines region g = .ok (east, north)) :
+    gridCoordinates region g extra =
+      .ok ((meshgrid east north).1 :: (meshgrid east north).2 ::
+            extra.map fun v => north.map fun _ => east.map fun _ => v) := by
+  simp [gridCoordinates, h, bind, Except.bind, pure, Except.pure]
+
+theorem gridLines_shape (w e s n : Rat) (hwe : w ≤ e) (hsn : s ≤ n) (nn ne : Nat) (adj : Adjust) (px : Bool) :
+    gridLines [w, e, s, n] ⟨some (nn, ne), none, adj, px⟩ =
+      (do let east ← lineCoordinates w e (some ne) none adj px
+          let north ← lineCoordinates s n (some nn) none adj px
+          pure (east, north)) := by
+  simp [gridLines, checkRegion, not_lt.mpr hwe, not_lt.mpr hsn, bind, Except.bind, pure, Except.pure]
+
+theorem gridLines_spacing (w e s n : Rat) (hwe : w ≤ e) (hsn : s ≤ n) (sn se : Rat) (adj : Adjust) (px : Bool) :
+    gridLines [w, e, s, n] ⟨none, some [sn, se], adj, px⟩ =
+      (do let east ← lineCoordinates w e none (some se) adj px
+          let north ← lineCoordinates s n none (some sn) adj px
+          pure (east, north)) := by
+  simp [gridLines, checkRegion, not_lt.mpr hwe, not_lt.mpr hsn, bind, Except.bind, pure, Except.pure]
+
+theorem gridLines_scalar_spacing (region : List Rat) (sp : Rat) (adj : Adjust) (px : Bool) :
+    gridLines region ⟨none, some [sp], adj, px⟩ = gridLines region ⟨none, some [sp, sp], adj, px⟩ := by
+  simp [gridLines]
+
+theorem more_than_two_spacings_rejected (w e s n a b c : Rat) (rest : List Rat) (hwe : w ≤ e) (hsn : s ≤ n)
+    (adj : Adjust) (px : Bool) :
+    gridLines [w, e, s, n] ⟨none, some (a :: b :: c :: rest), adj, px⟩ = .error .valueError := by
+  simp [gridLines, checkRegion, not_lt.mpr hwe, not_lt.mpr hsn, bind, Except.bind]
+
+theorem grid_shape_and_spacing_rejected (w e s n : Rat) (hwe : w ≤ e) (hsn : s ≤ n) (sh : Nat × Nat)
+    (sp : List Rat) (adj : Adjust) (px : Bool) :
+    gridLines [w, e, s, n] ⟨some sh, some sp, adj, px⟩ = .error .valueError := by
+  simp [gridLines, checkRegion, not_lt.mpr hwe, not_lt.mpr hsn, bind, Except.bind]
+
+theorem grid_invalid_region_rejected (w e s n : Rat) (h : e < w ∨ n < s) (g : GridSpec) :
+    gridLines [w, e, s, n] g = .error .valueError := by
+  rcases h with h | h
+  · simp [gridLines, checkRegion, h, bind, Except.bind]
+  · by_cases hwe : e < w
+    · simp [gridLines, checkRegion, hwe, bind, Except.bind]
+    · simp [gridLines, checkRegion, hwe, h, bind, Except.bind]
+
+/-- `shape_to_spacing` inverts the shape: a spacing of `extent/(n-1)` gives back `n` nodes ending at `stop`. -/
+theorem shape_to_spacing_inverts (start stop : Rat) (n : Nat) (hn : 2 ≤ n) (hlt : start < stop) :
+    intervals start stop ((stop - start) / ((n : Rat) - 1)) = n - 1 := by
+  have hn1 : (0 : Rat) < (n : Rat) - 1 := by
+    have : (2 : Rat) ≤ (n : Rat) := by exact_mod_cast hn
+    linarith
+  have hq : (stop - start) / ((stop - start) / ((n : Rat) - 1)) = (((n - 1 : Nat) : Int) : Rat) := by
+    have hne : stop - start ≠ 0 := by linarith
+    rw [div_div_eq_mul_div, mul_comm, mul_div_assoc, div_self hne, mul_one]
+    push_cast [Nat.cast_sub (by omega : 1 ≤ n)]
+    ring
+  unfold intervals
+  rw [hq, roundHalfEven_int]
+  omega
+
+theorem shape_to_spacing_pixel_inverts (start stop : Rat) (n : Nat) (hn : 1 ≤ n) (hlt : start < stop) :
+    intervals start stop ((stop - start) / (n : Rat)) = n := by
+  have hq : (stop - start) / ((stop - start) / (n : Rat)) = ((n : Int) : Rat) := by
+    have hne : stop - start ≠ 0 := by linarith
+    rw [div_div_eq_mul_div, mul_comm, mul_div_assoc, div_self hne, mul_one]
+    simp
+  unfold intervals
+  rw [hq, roundHalfEven_int]
+  omega
+
+theorem shapeToSpacing_eq (r : Region) (nn ne : Nat) (hnn : 2 ≤ nn) (hne : 2 ≤ ne) :
+    shapeToSpacing r (nn, ne) false = some ((r.n - r.s) / ((nn : Rat) - 1), (r.e - r.w) / ((ne : Rat) - 1)) := by
+  unfold shapeToSpacing
+  have h1 : ¬ ((nn : Int) - 1 = 0 ∨ (ne : Int) - 1 = 0) := by omega
+  simp only [Bool.false_eq_true, if_false, h1]
+  push_cast; rfl
+
+/-- Profile points are evenly spaced on the segment: point `t` is `p1 + t/(size-1)·(p2-p1)`,
+    with squared distance `(t/(size-1))²·|p2-p1|²` from the first point. -/
+theorem profile_even (p1 p2 : Rat × Rat) (n t : Nat) (hn : 2 ≤ n) (ht : t < n) :
+    ∃ pts, profilePoints p1 p2 (n : Int) = .ok pts ∧ pts.length = n ∧
+      pts[t]? = some (p1.1 + ((t : Rat) / ((n : Rat) - 1)) * (p2.1 - p1.1),
+                      p1.2 + ((t : Rat) / ((n : Rat) - 1)) * (p2.2 - p1.2),
+                      ((t : Rat) / ((n : Rat) - 1)) * ((t : Rat) / ((n : Rat) - 1)) *
+                        ((p2.1 - p1.1) * (p2.1 - p1.1) + (p2.2 - p1.2) * (p2.2 - p1.2))) := by
+  have hpos : ¬ ((n : Int) ≤ 0) := by omega
+  have hn1 : n ≠ 1 := by omega
+  refine ⟨_, by simp only [profilePoints, hpos, if_false]; rfl, by simp, ?_⟩
+  simp [List.getElem?_map, List.getElem?_range ht, hn1]
+
+theorem profile_endpoints (p1 p2 : Rat × Rat) (n : Nat) (hn : 2 ≤ n) :
+    ∃ pts, profilePoints p1 p2 (n : Int) = .ok pts ∧
+      (pts[0]?.map fun p => (p.1, p.2.1)) = some p1 ∧ (pts[n - 1]?.map fun p => (p.1, p.2.1)) = some p2 := by
+  obtain ⟨pts, h, _, h0⟩ := profile_even p1 p2 n 0 hn (by omega)
+  obtain ⟨pts', h', _, hl⟩ := profile_even p1 p2 n (n - 1) hn (by omega)
+  rw [h] at h'; cases h'
+  refine ⟨pts, h, ?_, ?_⟩
+  · rw [h0]; simp
+  · rw [hl]
+    have hn1 : (n : Rat) - 1 ≠ 0 := by
+      have : (2 : Rat) ≤ (n : Rat) := by exact_mod_cast hn
+      intro h; linarith
+    have : ((n - 1 : Nat) : Rat) / ((n : Rat) - 1) = 1 := by
+      rw [Nat.cast_sub (by omega : 1 ≤ n)]; push_cast; exact div_self hn1
+    simp [this]
+
+theorem profile_nonpositive_size_rejected (p1 p2 : Rat × Rat) (n : Int) (h : n ≤ 0) :
+    profilePoints p1 p2 n = .error .valueError := by simp [profilePoints, h]
+
+/-! Non-vacuity: concrete inputs meeting the hypotheses. -/
+example : lineCoordinates 0 10 none (some (5/2)) .spacing false = .ok [0, 5/2, 5, 15/2, 10] := by decide +kernel
+example : lineCoordinates 0 7 none (some 2) .region true = .ok [1, 3, 5, 7] := by decide +kernel
+example : intervals 0 7 2 = 4 ∧ intervals 0 5 2 = 2 ∧ intervals 0 1 5 = 1 := by decide +kernel
+
 end Verde.C07
